@@ -1109,7 +1109,10 @@ class AstEval:
             sym_table_assign = self.global_sym_table
         else:
             sym_table_assign = self.sym_table
-        sym_table_assign[arg.name] = EvalLocalVar(arg.name)
+        if sym_table_assign is not self.global_sym_table:
+            # inside a function the name is a closure cell; a module-level (or global) class is a plain
+            # global, so that the module attribute and `from m import K` yield the class itself
+            sym_table_assign[arg.name] = EvalLocalVar(arg.name)
         if hasattr(metaclass, "__prepare__"):
             sym_table = metaclass.__prepare__(arg.name, tuple(bases), **keywords)
         else:
@@ -1136,7 +1139,10 @@ class AstEval:
             cls = await cls
         for dec_func in reversed(decorators):
             cls = await self.call_func(dec_func, None, cls)
-        sym_table_assign[arg.name].set(cls)
+        if sym_table_assign is self.global_sym_table:
+            sym_table_assign[arg.name] = cls
+        else:
+            sym_table_assign[arg.name].set(cls)
 
     async def ast_functiondef(self, arg, async_func=False):
         """Evaluate function definition."""
